@@ -96,6 +96,25 @@ func (g *ExprGen) litScalar(like *ref.V) *ref.V {
 	}
 }
 
+// twin: the same text under another type (1 / "1", true / "true", null / "null"), nil if there is none.
+func twin(v *ref.V) *ref.V {
+	switch v.K {
+	case ref.Int, ref.Bool, ref.Null:
+		return ref.StrV(v.JSON())
+	case ref.Str:
+		switch v.S {
+		case "true", "false":
+			return ref.BoolV(v.S == "true")
+		case "null":
+			return ref.NullV()
+		}
+		if n, err := strconv.ParseInt(v.S, 10, 32); err == nil && strconv.FormatInt(n, 10) == v.S {
+			return ref.IntV(n)
+		}
+	}
+	return nil
+}
+
 func okKey(k string) bool {
 	if !ref.ExprStringOK(k) {
 		return false
@@ -515,6 +534,13 @@ func (g *ExprGen) binary(in []*ref.V, depth int) *ref.Expr {
 			}
 			if op == "/" || op == "%" || op == "*" {
 				op = []string{"+", "-"}[r.IntN(2)]
+			}
+			if op == "-" && len(lv.A) > 0 && r.IntN(3) == 0 {
+				// subtract an element's twin under another type: [1, "1"] - ["1"] keeps the 1
+				el := lv.A[r.IntN(len(lv.A))]
+				if tw := twin(el); tw != nil {
+					rr = &ref.Expr{Op: ref.OpCollect, L: ref.Lit(tw)}
+				}
 			}
 		case ref.Map:
 			if r.IntN(2) == 0 {
